@@ -29,11 +29,18 @@ func fieldLoadOf(v ssa.Value, typ, field string) bool {
 }
 
 func isNowUnix(v ssa.Value) bool {
+	return isNowUnixR(v, func(x ssa.Value) ssa.Value { return km.Unwrap(x) })
+}
+
+// isNowUnixR: time.Now().Unix(), where the time value may be a parameter the caller bound to time.Now(), and the
+// whole epoch value may be a local/parameter the caller bound to time.Now().Unix().
+func isNowUnixR(v ssa.Value, resolve func(ssa.Value) ssa.Value) bool {
+	v = resolve(v)
 	cl, ok := km.Unwrap(v).(*ssa.Call)
 	if !ok || km.CalleeFull(cl.Common()) != "(time.Time).Unix" {
 		return false
 	}
-	in, ok := km.Unwrap(cl.Common().Args[0]).(*ssa.Call)
+	in, ok := km.Unwrap(resolve(cl.Common().Args[0])).(*ssa.Call)
 	return ok && km.CalleeFull(in.Common()) == "time.Now"
 }
 
@@ -42,9 +49,9 @@ func primNotExpiredEpoch(typ string) km.Prim {
 	return km.Prim{Name: "exp >= now", Rel: func(f km.Fact, resolve func(ssa.Value) ssa.Value) bool {
 		switch f.Op {
 		case token.GEQ, token.GTR:
-			return fieldLoadOf(resolve(f.X), typ, "Expiration") && isNowUnix(f.Y)
+			return fieldLoadOf(resolve(f.X), typ, "Expiration") && isNowUnixR(f.Y, resolve)
 		case token.LEQ, token.LSS:
-			return fieldLoadOf(resolve(f.Y), typ, "Expiration") && isNowUnix(f.X)
+			return fieldLoadOf(resolve(f.Y), typ, "Expiration") && isNowUnixR(f.X, resolve)
 		}
 		return false
 	}}
@@ -389,9 +396,9 @@ func checkC04(c *km.Ctx) {
 		nbf := km.Prim{Name: "nbf <= now", Rel: func(f km.Fact, resolve func(ssa.Value) ssa.Value) bool {
 			switch f.Op {
 			case token.LEQ:
-				return fieldLoadOf(resolve(f.X), cons.typ, "NotBefore") && isNowUnix(f.Y)
+				return fieldLoadOf(resolve(f.X), cons.typ, "NotBefore") && isNowUnixR(f.Y, resolve)
 			case token.GEQ:
-				return fieldLoadOf(resolve(f.Y), cons.typ, "NotBefore") && isNowUnix(f.X)
+				return fieldLoadOf(resolve(f.Y), cons.typ, "NotBefore") && isNowUnixR(f.X, resolve)
 			}
 			return false
 		}}
